@@ -322,6 +322,14 @@ func main() {
 					exit = 1
 				} else {
 					lines = append(lines, fmt.Sprintf("UNREPRODUCED property=%s harness=%s sites=%s :: %s", *prop, rep.Harness, label, rr.Detail))
+					// keep the model for diagnosis: an unreproduced model is a defect of the machinery
+					dir := filepath.Join(verifRoot, "replays", *prop)
+					os.MkdirAll(dir, 0o755)
+					path := filepath.Join(dir, fmt.Sprintf("%s_unreproduced%d.json", rep.Harness, vi))
+					saved := savedReplay{Property: *prop, Harness: rep.Harness, Fix: rep.Fix, K: rep.K, U: rep.U, Sites: v.Sites, Trace: v.Trace, Native: rr.Detail,
+						ReplayCmd: fmt.Sprintf("%s/bin/check -replay %s", verifRoot, path)}
+					b, _ := json.MarshalIndent(saved, "", " ")
+					os.WriteFile(path, b, 0o644)
 				}
 			}
 			// validate cover witnesses natively
